@@ -801,6 +801,11 @@ impl SimPair {
         }
     }
 
+    /// Is a data frame still travelling towards endpoint e?
+    pub fn data_in_flight_to(&self, e: usize) -> bool {
+        self.in_flight[e].iter().any(|f| f.bytes.first() == Some(&10))
+    }
+
     /// Sender `s` has nothing left to send or to be acknowledged and none of its data frames is travelling.
     pub fn direction_quiescent(&self, s: usize) -> bool {
         !self.hc[s].is_send_pending() && self.hc[s].send_buffer_size() == 0 && !self.in_flight[1 - s].iter().any(|f| f.bytes.first() == Some(&10))
